@@ -98,6 +98,23 @@ func Families(tier string, seed int64) []*spec.Program {
 		out = append(out, v)
 	}
 	{
+		// one list of plan modifiers (general key) shared by every place Leaf is nested, the field computed by path
+		// under the later root only: what is generated for Beta does not depend on Alpha being built first
+		pb := variant(base, "f_multipm", "base", "C01", "C12")
+		pb.Family = "f_multipm"
+		pb.Config.PlanModifiers = map[string][]string{"Leaf.Num": {"github.com/hashicorp/terraform-plugin-framework/tfsdk.UseStateForUnknown()", spec.SupportPkg + `.PM("shared")`}}
+		pb.Config.ComputedFields = append(append([]string{}, pb.Config.ComputedFields...), "Beta.L.Num")
+		pb.NoRun = true
+		out = append(out, pb)
+		for i, sel := range [][]string{{"Beta"}, {"Alpha"}, {"Beta", "Alpha", "Gamma"}} {
+			v := variant(pb, fmt.Sprintf("f_multipm_sel%d", i), "selection", "C01", "C12")
+			v.Family = "f_multipm"
+			v.Config.Types = sel
+			v.NoRun = true
+			out = append(out, v)
+		}
+	}
+	{
 		// "Gamma" is not selected, "XGamma" and "AlphaBeta" are: a name that is a suffix / prefix of a selected one
 		v := variant(base, "f_multi_selsfx", "selection", "C01", "C12")
 		v.Spec.Messages = append(v.Spec.Messages, M("XGamma", nil, F("Label", "string"), F("N", "int32")), M("AlphaBeta", nil, F("Q", "string")),
@@ -250,7 +267,7 @@ func Families(tier string, seed int64) []*spec.Program {
 		}
 	}
 	for _, a := range Atlas() {
-		if a.ID == "a_oneof" || a.ID == "a_embed" || a.ID == "a_embedncustom" || (thorough && (a.ID == "a_msgs" || a.ID == "a_temporal" || a.ID == "a_names")) {
+		if a.ID == "a_oneof" || a.ID == "a_embed" || a.ID == "a_embedncustom" || a.ID == "a_embedsort" || (thorough && (a.ID == "a_msgs" || a.ID == "a_temporal" || a.ID == "a_names")) {
 			orderBases = append(orderBases, a)
 		}
 	}
@@ -344,6 +361,23 @@ func Families(tier string, seed int64) []*spec.Program {
 			}
 			mk(fmt.Sprintf("f_chan_split%d", i), spec.Delivery{CLI: cli, Decoy: decoy, Perm: int64(r.n(1000))})
 		}
+		// single-element lists on the command line against OTHER real entries in the file: the command line replaces
+		{
+			ob := variant(base, "f_chan1_base", "channel-base", "C16")
+			ob.Family = "f_chan1_base"
+			ob.Config.Types = []string{"Alpha", "Beta"}
+			ob.Config.ExcludeFields = []string{"Alpha.When"}
+			ob.Config.ComputedFields = []string{"Beta.Count"}
+			ob.Config.RequiredFields = []string{"Alpha.Id"}
+			ob.Config.SensitiveFields = []string{"Leaf.Str"}
+			ob.NoRun = true
+			out = append(out, ob)
+			ov := variant(ob, "f_chan1_cli", "channel", "C16")
+			ov.Family = "f_chan1_base"
+			ov.Delivery = spec.Delivery{CLI: []string{"exclude_fields", "computed_fields", "required_fields", "sensitive"}, Decoy: []string{"exclude_fields", "computed_fields", "required_fields", "sensitive"}, DecoyReal: true}
+			ov.NoRun = true
+			out = append(out, ov)
+		}
 		// the unsorted twin: a command line sort=false must win over sort: true in the file
 		ub := variant(base, "f_chanuns_base", "channel-base", "C16")
 		ub.Family = "f_chanuns_base"
@@ -436,6 +470,8 @@ func Families(tier string, seed int64) []*spec.Program {
 			{"Leaf", F("BadCastDur", "int64", cast("Duration")), false, true, []string{"Alpha", "Beta"}},
 			// the unmappable field is the ONLY field of its message (which the reference declares without fields)
 			{"Solo", F("BadOnly", "timestamp", stdtime()), true, false, []string{"Alpha"}},
+			// time.Duration stays a duration when a custom duration type is configured as well
+			{"Mid", F("BadStdCast", "int64", cast("time.Duration")), false, true, []string{"Alpha", "Beta"}},
 		}
 		if thorough {
 			injs = append(injs, inj{"Leaf", F("BadKey", "map:bool,msg:Leaf"), false, false, []string{"Alpha", "Beta"}},
